@@ -1,0 +1,63 @@
+//go:build verif
+
+package tls
+
+import (
+	"reflect"
+	"runtime"
+	"strings"
+)
+
+// VerifSuite describes one entry of a cipher-suite table as data (verification hook, accessors only).
+type VerifSuite struct {
+	ID                                            uint16
+	KeyLen, MacLen, IVLen                         int
+	Flags                                         int
+	ECDHE, ECSign, TLS12Only, SHA384, DefaultOff bool
+	KA                                            string // name of the key-agreement constructor (rsaKA, ecdheRSAKA, ecdheECDSAKA, dheRSAKA, ...)
+	Cipher                                        string // aead | block | stream (by which constructor is set and the IV length)
+}
+
+func verifDescribe(tab []*cipherSuite) []VerifSuite {
+	out := make([]VerifSuite, 0, len(tab))
+	for _, s := range tab {
+		v := VerifSuite{ID: s.id, KeyLen: s.keyLen, MacLen: s.macLen, IVLen: s.ivLen, Flags: s.flags,
+			ECDHE: s.flags&suiteECDHE != 0, ECSign: s.flags&suiteECSign != 0, TLS12Only: s.flags&suiteTLS12 != 0,
+			SHA384: s.flags&suiteSHA384 != 0, DefaultOff: s.flags&suiteDefaultOff != 0}
+		if s.ka != nil {
+			n := runtime.FuncForPC(reflect.ValueOf(s.ka).Pointer()).Name()
+			if i := strings.LastIndexByte(n, '.'); i >= 0 {
+				n = n[i+1:]
+			}
+			v.KA = n
+		}
+		switch {
+		case s.aead != nil:
+			v.Cipher = "aead"
+		case s.ivLen == 0:
+			v.Cipher = "stream"
+		default:
+			v.Cipher = "block"
+		}
+		out = append(out, v)
+	}
+	return out
+}
+
+// VerifServerSuites returns the table the server (and default client) negotiates from.
+func VerifServerSuites() []VerifSuite { return verifDescribe(cipherSuites) }
+
+// VerifClientSuites returns the extended table a client may offer.
+func VerifClientSuites() []VerifSuite { return verifDescribe(implementedCipherSuites) }
+
+// VerifTLS13Suites returns the ids of the TLS 1.3 suites.
+func VerifTLS13Suites() []uint16 {
+	var out []uint16
+	for _, s := range cipherSuitesTLS13 {
+		out = append(out, s.id)
+	}
+	return out
+}
+
+// VerifHasAESGCMHardwareSupport reports the hardware flag that influences default suite ordering.
+func VerifHasAESGCMHardwareSupport() bool { return hasAESGCMHardwareSupport }
